@@ -338,17 +338,26 @@ func runC01(c *eng.Ctx) {
 	c.Rule("ORDER", vsT+".Recover / kv.newStore", func() {
 		f := c.Fn(vsT + ".Recover")
 		rec := c.One(f, eng.CallTo(vsT+".recover"), "vs.recover()")
-		for i, j := range c.Some(f, eng.CallTo(vsT+".initJournal"), "vs.initJournal()") {
-			// either the no-CURRENT branch (fresh store) or after a successful replay
-			ok, _ := eng.OkDominates(f, rec.Instr, j.Instr)
-			fresh := !eng.DominatedBy(f, j.Instr, []eng.Site{rec}, nil)
-			if fresh {
-				facts := p.MustFacts(f)
-				ex := facts.Find(facts.At(j.Instr), "false", func(d string, _ ssa.Value) bool { return strings.Contains(d, "Exist(") }, nil)
-				c.Check(len(ex) > 0, fmt.Sprintf("fresh-journal-only-without-CURRENT[%d]", i), j.Instr, f, "a journal is created without replay only when no CURRENT file exists", "")
-			} else {
-				c.Check(ok, fmt.Sprintf("replay(ok)<new-journal[%d]", i), j.Instr, f, "the new journal (a snapshot of the recovered state) is written only after the old one was replayed successfully", "")
+		ex := c.One(f, func(p *eng.Prog, in ssa.Instruction) bool {
+			cl, ok := in.(*ssa.Call)
+			if !ok || cl.Common().StaticCallee() == nil || cl.Common().StaticCallee().Pkg == nil {
+				return false
 			}
+			g := cl.Common().StaticCallee()
+			return g.Name() == "Exist" && strings.HasSuffix(g.Pkg.Pkg.Path(), "/fileutil")
+		}, "fileutil.Exist(CURRENT)")
+		_, noCurrent := eng.BoolCheckEdges(f, ex.Instr.(ssa.Value))
+		c.Check(len(noCurrent) > 0, "current-tested", ex.Instr, f, "Recover branches on the existence of CURRENT", "")
+		recNil, _ := eng.ErrCheckEdges(f, rec.Instr.(ssa.Value))
+		for i, j := range c.Some(f, eng.CallTo(vsT+".initJournal"), "vs.initJournal()") {
+			// when CURRENT exists (the edges on which it does not are forbidden) a new journal is reachable only through a
+			// replay that returned nil
+			onlyExisting := eng.ForbidEdges(noCurrent)
+			byReplay := eng.DominatedBy(f, j.Instr, []eng.Site{rec}, onlyExisting)
+			_, viaFail := eng.PathExists(eng.PathQuery{Fn: f, After: rec.Instr, Target: func(in ssa.Instruction) bool { return in == j.Instr }, Edge: eng.ForbidEdges(append(append([]eng.Edge{}, noCurrent...), recNil...))})
+			c.Check(byReplay && len(recNil) > 0 && !viaFail, fmt.Sprintf("replay(ok)<new-journal[%d]", i), j.Instr, f,
+				"with a CURRENT file present the new journal (a snapshot of the recovered state) is written only after the old one was replayed successfully; a journal without replay is created only when no CURRENT file exists",
+				fmt.Sprintf("dominated by replay on the CURRENT-exists paths: %v, reachable after a failed replay: %v", byReplay, viaFail))
 		}
 		n := c.Fn("kv.newStore")
 		if len(n.AnonFuncs) == 0 {
@@ -385,8 +394,8 @@ func runC01(c *eng.Ctx) {
 		owner(c, "call of renameFunc", eng.AnyCallTo("var:kv/version.renameFunc"), []string{vsT + ".setCurrent"}, 1)
 		owner(c, "call of newBufferWriterFunc", eng.AnyCallTo("var:kv/version.newBufferWriterFunc"), []string{vsT + ".initJournal"}, 1)
 		owner(c, "call of kv.removeFunc", eng.AnyCallTo("var:kv.removeFunc"), []string{"kv.store.deleteObsoleteFiles"}, 1)
-		owner(c, "call of kv.removeDirFunc", eng.AnyCallTo("var:kv.removeDirFunc"), []string{famT + ".deleteSST"}, 1)
-		owner(c, "call of family.deleteSST", eng.AnyCallTo(famT+".deleteSST"), []string{famT + ".deleteObsoleteFiles"}, 1)
+		owner(c, "call of kv.removeDirFunc", eng.AnyCallTo("var:kv.removeDirFunc"), []string{famT + ".deleteSST", famT + ".deleteObsoleteFiles"}, 1)
+		owner(c, "call of family.deleteSST", eng.AnyCallTo(famT+".deleteSST"), []string{famT + ".deleteObsoleteFiles"}, 0)
 		owner(c, "call of table.newBufioWriterFunc", eng.AnyCallTo("var:kv/table.newBufioWriterFunc"), []string{"kv/table.NewStoreBuilder"}, 1)
 		owner(c, "call of setCurrent", eng.AnyCallTo(vsT+".setCurrent"), []string{vsT + ".initJournal"}, 1)
 		owner(c, "call of initJournal", eng.AnyCallTo(vsT+".initJournal"), []string{vsT + ".Recover"}, 2)
@@ -458,7 +467,7 @@ func runC01(c *eng.Ctx) {
 			if fn.Signature.Recv() != nil || fn.Parent() != nil || strings.HasPrefix(fn.Name(), "init") || fn.Signature.Results().Len() != 1 || fn.Signature.Results().At(0).Type().String() != logIface.String() {
 				continue
 			}
-			for _, b := range fn.Blocks {
+			for _, b := range eng.BlocksT(fn) {
 				for _, in := range b.Instrs {
 					if a, ok := in.(*ssa.Alloc); ok {
 						if n, ok := a.Type().(*types.Pointer).Elem().(*types.Named); ok {
@@ -580,7 +589,7 @@ func logCodecs(c *eng.Ctx) {
 				cf = fv
 			}
 			if cf != nil {
-				for _, b := range cf.Blocks {
+				for _, b := range eng.BlocksT(cf) {
 					for _, in := range b.Instrs {
 						if al, ok := in.(*ssa.Alloc); ok {
 							if n, ok := al.Type().(*types.Pointer).Elem().(*types.Named); ok {
